@@ -1264,11 +1264,17 @@ Tokenizer_parse_entity(Tokenizer *self)
 static int
 Tokenizer_parse_comment(Tokenizer *self)
 {
-    Py_ssize_t reset = self->head + 3;
+    Py_ssize_t reset = self->head + 3, start;
     PyObject *comment;
     Py_UCS4 this;
 
     self->head += 4;
+    if (self->unterminated_comment >= 0 && self->head >= self->unterminated_comment) {
+        // An earlier scan from here or before found no end of comment:
+        self->head = reset;
+        return Tokenizer_emit_text(self, "<!--");
+    }
+    start = self->head;
     if (Tokenizer_push(self, 0)) {
         return -1;
     }
@@ -1277,6 +1283,7 @@ Tokenizer_parse_comment(Tokenizer *self)
         if (!this) {
             comment = Tokenizer_pop(self);
             Py_XDECREF(comment);
+            self->unterminated_comment = start;
             self->head = reset;
             return Tokenizer_emit_text(self, "<!--");
         }
